@@ -14,8 +14,92 @@ import (
 	"time"
 )
 
+// tryReplay: concretising a solver model into Go values is not implemented (inputs of the functions under contract
+// are heap structures; models of failed obligations are rare because failed obligations are mostly quantified).
 func tryReplay(cx *Ctx, prop string, ur *UnitResult, r *OblResult, replayPath string) bool {
 	return false
+}
+
+// A probe is an in-package Go test with an executable oracle taken from the property statement (a demonstration of
+// a repaired defect, a scenario test, or a small exhaustive enumeration). Probes prove nothing and are not run on the
+// unchanged tree's happy path: they are executed only after an obligation of the function they are registered for has
+// failed, to turn "the verifier rejects this code" into "here is an input on which the real code breaks the property".
+type probeSpec struct {
+	Funcs []string `json:"funcs"` // substrings of the SSA name of the function under contract
+	Pkg   string   `json:"pkg"`   // package directory in /repo
+	File  string   `json:"file"`  // test file under /verif
+	Run   string   `json:"run"`   // test name
+}
+
+func loadProbes() []probeSpec {
+	var ps []probeSpec
+	b, err := os.ReadFile(filepath.Join(verifRoot, "probes", "index.json"))
+	if err == nil {
+		json.Unmarshal(b, &ps)
+	}
+	return ps
+}
+
+// runProbes executes, for every function with a failed obligation, the probes registered for it; when one fails the
+// replay files of that function's violations get the probe's output and the violations lose "no-failing-input-found".
+func runProbes(cx *Ctx, prop string, viols []violation) []map[string]any {
+	probes := loadProbes()
+	if len(probes) == 0 {
+		return nil
+	}
+	units := map[string]bool{}
+	for _, v := range viols {
+		if v.NoInput && v.Unit != "" {
+			units[v.Unit] = true
+		}
+	}
+	var report []map[string]any
+	type res struct {
+		failed bool
+		out    string
+	}
+	cache := map[string]res{}
+	for unit := range units {
+		for _, p := range probes {
+			match := false
+			for _, f := range p.Funcs {
+				if strings.Contains(unit, f) {
+					match = true
+				}
+			}
+			if !match {
+				continue
+			}
+			key := p.Pkg + "|" + p.File + "|" + p.Run
+			r, ok := cache[key]
+			if !ok {
+				out, err := goTestOverlay(cx.repo, p.Pkg, p.Run, map[string]string{"zz_govc_probe_test.go": filepath.Join(verifRoot, p.File)}, nil, 120*time.Second)
+				r = res{failed: err != nil && strings.Contains(out, "--- FAIL"), out: out}
+				cache[key] = r
+			}
+			report = append(report, map[string]any{"function": unit, "probe": p.File, "test": p.Run, "failed": r.failed})
+			if !r.failed {
+				continue
+			}
+			for i := range viols {
+				if viols[i].Unit != unit || !viols[i].NoInput {
+					continue
+				}
+				viols[i].NoInput = false
+				var m map[string]any
+				if b, err := os.ReadFile(viols[i].Replay); err == nil && json.Unmarshal(b, &m) == nil {
+					m["failing_input"] = map[string]any{
+						"found_by": "probe executed on the real code after the obligation failed (the solver itself returned no model)",
+						"probe":    p.File, "test": p.Run, "package": p.Pkg,
+						"replay":   fmt.Sprintf("cd /repo && echo '{\"Replace\":{\"/repo/%s/zz_govc_probe_test.go\":\"%s\"}}' > /root/ov.json && go test -overlay /root/ov.json -vet=off -count=1 -run '^%s$' ./%s/", p.Pkg, filepath.Join(verifRoot, p.File), p.Run, p.Pkg),
+						"output":   firstLines(r.out, 40),
+					}
+					writeJSON(viols[i].Replay, m)
+				}
+			}
+		}
+	}
+	return report
 }
 
 // goTestOverlay runs one in-package test of /repo with extra files injected through -overlay (nothing is written to /repo).
